@@ -62,6 +62,7 @@ def units():
 
 
 META = dict(
+    technique='CBMC 6.11 bit-precise function contracts (dfcc) on the allocation arithmetic, allocator back end as an interface model',
     level="proof",
     level_text="alignedMalloc/alignedFree are proved to make exactly one request to the aligned back end with the full size and alignment (and none to an unaligned one) and to release through the matching routine; aligned_allocator<T,64>::allocate is proved for T of size 4 and 24 and every n: n == 0 gives null without allocating, n > max_size() throws length_error without allocating, otherwise exactly one request of n*sizeof(T) bytes (no wrap-around) at alignment 64, null becomes bad_alloc, the result is the back end's block; max_size()*sizeof(T) does not wrap; isAligned(p,a) <=> p mod a == 0; ALIGN_PTR is the least aligned address >= p for power-of-two alignments. Bit-precise CBMC, all 2^64 sizes.",
     level_note="The allocators themselves (TBB scalable_aligned_malloc/free) are interface models with an ASSUMED contract (null or a block of `size` bytes at an address that is a multiple of `align`; release does not corrupt other blocks). That AlignedVector's data() stays 64-byte aligned and elements survive reallocation is std::vector's growth through this allocator and is not modelled.",
